@@ -349,7 +349,7 @@ def gen_vn(rng, widen):
             continue
         c = cur[w]
         k = rng.weighted([("step", 14), ("reset", 1.5), ("training", 2.5), ("norm_reward", 1), ("norm_obs", 1),
-                          ("saveload", 1), ("sync", 1.5 if two else 0), ("probe", 2.5)])
+                          ("saveload", 1), ("checkpoint", 1), ("sync", 1.5 if two else 0), ("probe", 2.5)])
         if k == "step":
             ops.append(["step", w])
         elif k == "reset":
@@ -381,6 +381,8 @@ def gen_vn(rng, widen):
             ops.append(["set", w, "norm_obs", new])
         elif k == "saveload":
             ops.append(["saveload", w])
+        elif k == "checkpoint":
+            ops.append(["checkpoint", w])
         elif k == "sync":
             src = rng.choice([0, 1])
             if len(started) < 2:
@@ -1242,6 +1244,29 @@ class CaseRun:
         cs = self.cmp_stats(w, st)
         self.emit({"op": "saveload", "w": wi}, lambda mo: ("model error" if "error" in mo else cs(mo["stats"])))
 
+    def do_checkpoint(self, wi):
+        """`save()` / pickling / deep-copying a LIVE wrapper (a checkpoint taken in the middle of an episode) and going on
+        with the same object: nothing of its state — statistics, running returns, settings — may change (no model
+        operation: the model's state is unchanged). Seeded change C15-j."""
+        import copy
+        import pickle
+
+        w = self.W[wi]
+        if self.tmp is None:
+            self.tmp = tempfile.mkdtemp(prefix="verif_c15_")
+        before = w.impl_stats()
+        try:
+            w.vn.save(os.path.join(self.tmp, f"ckpt{wi}.pkl"))
+            pickle.dumps(w.vn)
+            copy.deepcopy(w.vn.obs_rms) if hasattr(w.vn, "obs_rms") else None
+        except Exception as e:  # noqa
+            self.on_exception(w, wi, e, "checkpoint")
+            return
+        st = w.impl_stats()
+        if not stats_equal(before, st) or np.any(np.asarray(before["returns"]) != np.asarray(st["returns"])):
+            self.viol("saving / pickling a live wrapper changed its state", {"kind": "checkpoint", "w": wi,
+                      "variant": "returns" if np.any(np.asarray(before["returns"]) != np.asarray(st["returns"])) else "statistics"})
+
     def do_sync(self, src):
         from stable_baselines3.common.vec_env import sync_envs_normalization
 
@@ -1412,6 +1437,8 @@ class CaseRun:
                     self.do_set(op[1], op[2], op[3])
                 elif k == "saveload":
                     self.do_saveload(op[1])
+                elif k == "checkpoint":
+                    self.do_checkpoint(op[1])
                 elif k == "sync":
                     if len(self.W) == 2:
                         self.do_sync(op[1])
